@@ -23,7 +23,8 @@ func (a *LabelFilterPlanner) Process(ctx *shared.PlannerContext,
 	var _entries []shared.LogEntry
 	return a.WrapProcess(ctx, in, GenericPlannerOps{
 		OnEntry: func(entry *shared.LogEntry) error {
-			if fn(entry.Labels) {
+			// an entry carrying an error (or io.EOF) passes, as in the line filter: dropping it hid the error
+			if entry.Err != nil || fn(entry.Labels) {
 				_entries = append(_entries, *entry)
 			}
 			return nil
